@@ -1,9 +1,12 @@
 package s0311
 
+type G1 struct {
+	F3x0 uint64
+}
 
 type T struct {
 	F0 *int32
 	F1 *int64
-	F2 uint32
-	F3 []uint64
+	F2 []uint32
+	F3 []G1
 }
